@@ -5,41 +5,51 @@ import Glom.Model.C01Env2
   C01 driver: one JSON case in, one JSON verdict out.
 
   case:  {"classes":[[cls,[mro…]]…],            effective MRO of every user class
-          "info":[[cls,{"fields":[…],"props":[[name,Behav]…],"attrs":[…],
-                        "fallback":Behav|null,"missing":Behav|null}]…],
+          "info":[[cls,{"fields":[…],"props":[[name,Behav]…],"attrs":[[name,kind,extra]…],
+                        "fallback":Behav|null,"missing":Behav|null,"logA":b,"logI":b}]…],
           "excs":[[cls,[mro…]]…],                user exception classes
           "heap":[Obj…],
-          "events":[ {"reg":{"cls":c,"get":Handler|null,"exact":b}}
-                   | {"glom":{"spelling":Spelling,"target":Val}} …],
+          "star":bool (optional; false: glom.core.PATH_STAR = False),
           "defaults":bool (optional; false: Glommer(register_default_types=False)),
-          "impl":[ {"obs":Obs,"touched":[n…]|null} … ] }     one per glom event
-  Spelling: {"text":"a.b.c"} | {"parts":[{"seg":Val} | {"t":[[op,Val]…]}…]}
+          "events":[ {"reg":{"cls":c,"get":Handler|null,"exact":b}}
+                   | {"glom":{"spelling":Spelling,"target":Val}} …],     at least one glom event
+          "impl":[ {"obs":Obs,"log":[n…]} … ] }                          one per glom event
+  Spelling: {"text":"a.b.c"} | {"parts":[Part…]}
+  Part:     {"seg":Val} | {"t":[[op,Val]…]} | {"path":[Part…]}
   Behav:    {"raises":cls} | {"const":Val} | "echo" | {"slot":a} | {"table":a}
   Handler:  "getattr" | "getitem" | "seq" | {"table":a} | {"raises":cls} | false
-  Obs:      {"ok":Val} | {"pae":{"idx":n,"exc":cls,"glom":b,"key":b,"index":b,"attr":b}} | {"other":cls}
+  Obs:      {"ok":Val,"toks":[s…]}
+          | {"pae":{"idx":n,"exc":cls,"glom":b,"key":b,"index":b,"attr":b,"exc_ok":b,"path_ok":b,"arg":Val?}}
+          | {"other":cls}
 -/
 namespace Glom.C01.Driver
 open Lean Glom Glom.C01
 
 def stepOfJson (j : Json) : Except String (String × Val) := pairOfJson strOfJson valOfJson j
 
-def partOfJson (j : Json) : Except String Part := do
+partial def partOfJson (j : Json) : Except String Part2 := do
   if let .ok v := j.getObjVal? "seg" then return .seg (← valOfJson v)
   else if let .ok t := j.getObjVal? "t" then return .t (← listOfJson stepOfJson t)
+  else if let .ok p := j.getObjVal? "path" then return .path (← (← arrOf p).mapM partOfJson)
   else throw s!"bad part {j.compress}"
 
-def obsOfJson (j : Json) : Except String Obs := do
-  if let .ok v := j.getObjVal? "ok" then return .ok (← valOfJson v)
+def obsOfJson (j : Json) : Except String Obs2 := do
+  if let .ok v := j.getObjVal? "ok" then
+    return .ok (← valOfJson v) (← listOfJson strOfJson (← j.getObjVal? "toks"))
   else if let .ok p := j.getObjVal? "pae" then
+    let arg : Option Val ← (match p.getObjVal? "arg" with
+      | .ok a => do return some (← valOfJson a)
+      | .error _ => pure none)
     return .pae (← p.getObjValAs? Nat "idx") (← p.getObjValAs? String "exc")
       (← p.getObjValAs? Bool "glom") (← p.getObjValAs? Bool "key")
       (← p.getObjValAs? Bool "index") (← p.getObjValAs? Bool "attr")
+      (← p.getObjValAs? Bool "exc_ok") (← p.getObjValAs? Bool "path_ok") arg
   else if let .ok c := j.getObjValAs? String "other" then return .other c
   else throw s!"bad obs {j.compress}"
 
-def obsToJson : Obs → Json
-  | .ok v => Json.mkObj [("ok", valToJson v)]
-  | .pae k c g ke ie ae => Json.mkObj [("pae", Json.mkObj [("idx", k), ("exc", c), ("glom", g),
+def obsToJson : Obs2 → Json
+  | .ok v toks => Json.mkObj [("ok", valToJson v), ("toks", toJson toks)]
+  | .pae k c g ke ie ae _ _ _ => Json.mkObj [("pae", Json.mkObj [("idx", k), ("exc", c), ("glom", g),
       ("key", ke), ("index", ie), ("attr", ae)])]
   | .other c => Json.mkObj [("other", c)]
 
@@ -62,8 +72,13 @@ def optBehav (j : Json) (key : String) : Except String (Option Behav) :=
 def infoOfJson (j : Json) : Except String ClsInfo := do
   let fields ← listOfJson strOfJson (← j.getObjVal? "fields")
   let props ← listOfJson (pairOfJson strOfJson behavOfJson) (← j.getObjVal? "props")
-  let attrs ← listOfJson strOfJson (← j.getObjVal? "attrs")
-  return { fields, props, attrs, fallback := ← optBehav j "fallback", missing := ← optBehav j "missing" }
+  let attrs ← listOfJson (fun a => do
+    match ← arrOf a with
+    | [n, k, e] => return (← strOfJson n, ← strOfJson k, ← strOfJson e)
+    | _ => throw s!"bad attr {a.compress}") (← j.getObjVal? "attrs")
+  return { fields, props, attrs, fallback := ← optBehav j "fallback", missing := ← optBehav j "missing",
+           logA := (j.getObjValAs? Bool "logA").toOption.getD false,
+           logI := (j.getObjValAs? Bool "logI").toOption.getD false }
 
 def handlerOfJson (j : Json) : Except String (Option Handler) := do
   match j with
@@ -78,46 +93,44 @@ def handlerOfJson (j : Json) : Except String (Option Handler) := do
     else throw s!"bad handler {j.compress}"
 
 /-- an event; for a glom event also whether its steps are access steps only -/
-def eventOfJson (j : Json) : Except String Event := do
+def eventOfJson (star : Bool) (j : Json) : Except String Event := do
   if let .ok r := j.getObjVal? "reg" then
     return .register (← r.getObjValAs? String "cls") (← handlerOfJson (r.getObjValD "get"))
       (← r.getObjValAs? Bool "exact")
   else if let .ok g := j.getObjVal? "glom" then
     let sp ← g.getObjVal? "spelling"
     let parts ← (do
-      if let .ok t := sp.getObjValAs? String "text" then return partsOfText t.toList
-      else listOfJson partOfJson (← sp.getObjVal? "parts") : Except String (List Part))
-    return .glom (stepsOfParts parts) (← valOfJson (← g.getObjVal? "target"))
+      if let .ok t := sp.getObjValAs? String "text" then return partsOfTextS star t.toList
+      else listOfJson partOfJson (← sp.getObjVal? "parts") : Except String (List Part2))
+    return .glom (stepsOfParts2 parts) (← valOfJson (← g.getObjVal? "target"))
   else throw s!"bad event {j.compress}"
 
-def implOfJson (j : Json) : Except String (Obs × Option (List Nat)) := do
+def implOfJson (j : Json) : Except String (Obs2 × List Nat) := do
   let o ← obsOfJson (← j.getObjVal? "obs")
-  let t : Option (List Nat) ←
-    (match j.getObjVal? "touched" with
-     | .ok .null => pure none
-     | .ok t => do return some (← listOfJson natOfJson t)
-     | .error _ => pure none)
-  return (o, t)
+  return (o, ← listOfJson natOfJson (← j.getObjVal? "log"))
 
-def obsAgree (m i : Obs) : Bool :=
+/-- model observation against the implementation's: same outcome, same value (a class
+    attribute: the model's identity token is among those of the returned object), same log -/
+def obsAgree (m i : Obs2) : Bool :=
   match m, i with
-  | .ok a, .ok b => valMatch a b
-  | a, b => a == b
+  | .ok a _, .ok b toks => valMatch a b toks
+  | .pae k c g ke ie ae _ _ _, .pae k' c' g' ke' ie' ae' eo po _ =>
+    k == k' && c == c' && g == g' && ke == ke' && ie == ie' && ae == ae' && eo && po
+  | .other a, .other b => a == b
+  | _, _ => false
 
-def agreeAll : List Out2 → Env → List (Obs × Option (List Nat)) → Bool
+def agreeAll : List Out2 → Env → List (Obs2 × List Nat) → Bool
   | [], _, [] => true
-  | o :: os, env, (i, t) :: is =>
-    obsAgree (observe2 env o) i &&
-    (match t with | some t => isSubseq t (touchedAddrs o.touched) | none => true) &&
-    agreeAll os env is
+  | o :: os, env, (i, t) :: is => obsAgree (observe2 env o) i && o.log == t && agreeAll os env is
   | _, _, _ => false
 
-def branchOf (hasReg : Bool) (o : Obs) : String :=
+def branchOf (hasReg : Bool) (o : Obs2) : String :=
   (if hasReg then "reg/" else "") ++
   (match o with
-   | .ok (.ref _) => "ok-container"
-   | .ok (.sent _) => "ok-opaque"
-   | .ok _ => "ok-scalar"
+   | .ok (.ref _) _ => "ok-container"
+   | .ok (.sent "opaque") _ => "ok-computed-attr"
+   | .ok (.sent _) _ => "ok-class-attr"
+   | .ok _ _ => "ok-scalar"
    | .pae _ c .. => s!"pae-{c}"
    | .other c => s!"other-{c}")
 
@@ -126,7 +139,10 @@ def run (j : Json) : Except String Json := do
   let info ← listOfJson (pairOfJson strOfJson infoOfJson) (← j.getObjVal? "info")
   let excs ← classTableOfJson (← j.getObjVal? "excs")
   let heap ← heapOfJson (← j.getObjVal? "heap")
-  let events ← listOfJson eventOfJson (← j.getObjVal? "events")
+  let star := (j.getObjValAs? Bool "star").toOption.getD true
+  let events ← listOfJson (eventOfJson star) (← j.getObjVal? "events")
+  if !(events.any (fun e => match e with | .glom .. => true | _ => false)) then
+    throw "case without a glom event: nothing to check"
   let impl ← listOfJson implOfJson (← j.getObjVal? "impl")
   -- handlers outside the catalogue do not occur in generated cases
   let env := genEnv2 classes info excs (fun _ _ _ _ => .beyond)
@@ -137,13 +153,16 @@ def run (j : Json) : Except String Json := do
   let tbl0 : Table := if defaults then defaultTable else { map := [], tree := [] }
   let reg0 : Reg := { tbl := tbl0, cache := [] }
   let ref := refHistory env heap tbl0 events
-  if !(ref.all (fun p => p.1.inDomain)) then
+  if !(ref.all (fun p => p.w.inDomain)) then
     return Json.mkObj [("skip", true), ("why", "a walk leaves the modelled domain")]
   let outs := runHistory env heap reg0 events
   let agree := agreeAll outs env impl
   let holds := checkC01h env heap tbl0 events impl
-  let modelHolds := checkC01h env heap tbl0 events
-    (outs.map (fun o => (observe2 env o, some (touchedAddrs o.touched))))
+  let modelHolds := checkC01h env heap tbl0 events (outs.map (fun o => (observe2 env o, o.log)))
+  if !modelHolds then
+    throw "the model's own observation fails the checker (c01_model_checks says it cannot)"
+  if impl.length != outs.length then
+    throw "number of observations differs from the number of glom events"
   let hasReg := events.any (fun e => match e with | .register .. => true | _ => false)
   let lastObs := match outs.getLast? with
     | some o => observe2 env o
@@ -152,6 +171,7 @@ def run (j : Json) : Except String Json := do
     ("wf", WF2 env && factsOK),
     ("model", Json.arr (outs.map (fun o => obsToJson (observe2 env o))).toArray),
     ("model_touched", Json.arr (outs.map (fun o => toJson (touchedAddrs o.touched))).toArray),
+    ("model_log", Json.arr (outs.map (fun o => toJson o.log)).toArray),
     ("branch", branchOf hasReg lastObs)]
 
 end Glom.C01.Driver
